@@ -14,6 +14,10 @@ SSIcov_MS cov_mm / cov_R, SSIdat_MS, pLSCF_MS):
           multisets at 1e-6 (frequencies * k, damping unchanged, shape rows permuted / rotated), extracted modes too;
   unit    every reported shape (pole tables and extracted Phi, every class, every run): the component of largest
           modulus equals 1+0j within 1e-12.
+  positional  a share of the class cases (spec["pos"], positional_check) and every anchored function (positional_functions) are also
+          driven through the documented POSITIONAL call forms, in the parameter order of the pristine signatures (hard-coded: POS_SIGS,
+          mpe_request, run_alg, make_alg) with non-default values: same answer as the keyword call and the relations above on it
+          (keys C08:<entry point>:positional-call).
 Model side (ctx.coq_eval, exact rationals): the right-hand sides of hank_gain / hank_perm / hank_mix evaluated on the
 UNtransformed data vs ssi.build_hank on the transformed data; unity normalisation vs ssi.ac2mp, plscf.ac2mp_poly and
 fdd.FDD_mpe; lamc and the frequency grids vs the functions.
@@ -175,7 +179,15 @@ class Form:
         return {k: (self.b(v) if k == "conj" else self.f(v)) for k, v in d.items()}
 
 
-def make_alg(alg, P, ref_ind, kf=1.0, form=None):
+def make_alg(alg, P, ref_ind, kf=1.0, form=None, positional=False):
+    a = make_alg_kw(alg, P, ref_ind, kf, form)
+    if positional:
+        # the documented positional form of every algorithm constructor (pristine order, hard-coded): cls(run_params, name)
+        a = type(a)(a.run_params, "a")
+    return a
+
+
+def make_alg_kw(alg, P, ref_ind, kf=1.0, form=None):
     from pyoma2 import algorithms as A
 
     F = form or Form()
@@ -217,7 +229,41 @@ FIELDS = dict(
 )
 
 
-def run_alg(spec, inp, fs, kf, hold=None, reuse=None, same_setup=False, form=None, readonly=None):
+def mpe_request(spec, fam, kf, F, sens):
+    """-> (names, values) of the mpe call of a class, names / order = the PRISTINE signatures (hard-coded here, never introspected):
+         FDD.mpe(sel_freq, DF)      EFDD.mpe / FSDD.mpe(sel_freq, DF1, DF2, cm, MAClim, sppk, npmax)
+         SSIdat.mpe / SSIcov.mpe / pLSCF.mpe(sel_freq, order, rtol)           (the _MS classes inherit them)
+    sens=False: the requests every case makes.  sens=True (cases that are also called POSITIONALLY): no value is the default of its
+    parameter and a fall-back to a default / a swap of two neighbours changes the answer:
+      FDD   requests 2-4 lines away from the peaks with a search band that does not reach them (the default 0.1 either reaches the peak
+            or is narrower than a line);
+      EFDD  cm=2 with MAClim=0.3 (second singular vectors take part), sppk / npmax of the case, DF1 != DF2 != defaults;
+      SSI / pLSCF  first request 2 % off its mode with rtol=0.004 (not served; served with the default 0.05), integer / list order."""
+    P = spec["P"]
+    sel = [float(f) * kf for f in spec["sel"]]
+    if fam in ("SSI", "pLSCF"):
+        sel = [float(f) * kf for f in spec.get("sel_req", spec["sel"])]
+        if sens:
+            sel = [float(f) * kf * (1.02 if i == 0 else 1.0) for i, f in enumerate(spec["sel"])]
+        o0 = P["order"] if fam == "SSI" else P["porder"]
+        # (pLSCF_mpe with a per-mode list often meets an all-NaN order column and raises: the positional cases ask for one order there)
+        order = [F.i(max(1, o0 - (i % 2))) for i in range(len(sel))] if P.get("order_mode") == "list" and not (sens and fam == "pLSCF") else o0
+        return ["sel_freq", "order", "rtol"], [[F.f(x) for x in sel], order, F.f(0.004 if sens else P["rtol"])]
+    if fam == "FDD":
+        DF = P["DF"]
+        if sens:
+            df = spec["fs"] / P["nxseg"]
+            DF = 1.2 * df
+            if abs(DF - 0.1) < 1.5 * df:
+                DF = 0.1 + 2.0 * df
+            shift = DF + 1.3 * df
+            sel = [(f + shift if f + shift < 0.45 * spec["fs"] else f - shift) * kf for f in spec["sel"]]
+        return ["sel_freq", "DF"], [[F.f(x) for x in sel], F.f(DF * kf)]
+    return (["sel_freq", "DF1", "DF2", "cm", "MAClim", "sppk", "npmax"],
+            [[F.f(x) for x in sel], F.f(P["DF"] * kf), F.f(P["DF2"] * kf), F.i(2 if sens else 1), F.f(0.3 if sens else P["MAClim"]), F.i(P["sppk"]), F.i(P["npmax"])])
+
+
+def run_alg(spec, inp, fs, kf, hold=None, reuse=None, same_setup=False, form=None, readonly=None, positional=False, sens=False):
     """Run one class through its setup on the (possibly transformed) input.  kf = factor applied to every frequency-valued
     ARGUMENT (sel_freq, DF...) - the same physical request expressed in the new time unit.
     hold: dict that receives the (setup, algorithm) objects.  reuse = such a pair: the SAME algorithm object (already run and
@@ -243,10 +289,12 @@ def run_alg(spec, inp, fs, kf, hold=None, reuse=None, same_setup=False, form=Non
             st, a = reuse
         else:
             if spec["setup"] == "single":
-                st = SingleSetup(own(inp["data"]), fs=F.f(fs))
+                st = SingleSetup(own(inp["data"]), F.f(fs)) if positional else SingleSetup(own(inp["data"]), fs=F.f(fs))
+            elif positional:   # pristine order: MultiSetup_PreGER(fs, ref_ind, datasets)
+                st = MultiSetup_PreGER(F.f(fs), [[F.i(x) for x in r] for r in inp["ref_ind"]], [own(d) for d in inp["datasets"]])
             else:
                 st = MultiSetup_PreGER(fs=F.f(fs), ref_ind=[[F.i(x) for x in r] for r in inp["ref_ind"]], datasets=[own(d) for d in inp["datasets"]])
-            a = reuse[1] if reuse is not None else make_alg(alg, P, inp.get("ref_ind") if spec["setup"] == "single" else None, kf, F)
+            a = reuse[1] if reuse is not None else make_alg(alg, P, inp.get("ref_ind") if spec["setup"] == "single" else None, kf, F, positional)
             if reuse is not None and fam == "SSI":
                 a.run_params.hc = dict(a.run_params.hc, cov_max=P["hc"]["cov_max"] * kf * kf)
             st.add_algorithms(a)
@@ -256,21 +304,20 @@ def run_alg(spec, inp, fs, kf, hold=None, reuse=None, same_setup=False, form=Non
     except Exception as e:  # noqa: BLE001
         return dict(exc="run:" + type(e).__name__)
     try:
-        sel = [float(f) * kf for f in spec["sel"]]
-        order = None
-        if fam in ("SSI", "pLSCF"):
-            # the request list may carry a frequency that has NO pole (mid-way between two modes): which requests are served and
-            # how many modes come back must not depend on the time unit; order given as one int or as a per-mode list
-            sel = [float(f) * kf for f in spec.get("sel_req", spec["sel"])]
-            o0 = P["order"] if fam == "SSI" else P["porder"]
-            order = [F.i(max(1, o0 - (i % 2))) for i in range(len(sel))] if P.get("order_mode") == "list" else o0
-        sel = [F.f(x) for x in sel]
-        if fam == "FDD":
-            st.mpe("a", sel_freq=sel, DF=F.f(P["DF"] * kf))
-        elif fam == "EFDD":
-            st.mpe("a", sel_freq=sel, DF1=F.f(P["DF"] * kf), DF2=F.f(P["DF2"] * kf), cm=F.i(1), MAClim=F.f(P["MAClim"]), sppk=F.i(P["sppk"]), npmax=F.i(P["npmax"]))
+        # the request list of the SSI / pLSCF classes may carry a frequency that has NO pole (mid-way between two modes): which requests
+        # are served and how many modes come back must not depend on the time unit; order given as one int or as a per-mode list
+        names, vals = mpe_request(spec, fam, kf, F, sens)
+        if positional:
+            st.mpe("a", *vals)
         else:
-            st.mpe("a", sel_freq=sel, order=order, rtol=F.f(P["rtol"]))
+            st.mpe("a", **dict(zip(names, vals)))
+        # what the class recorded as its mpe parameters (run_params.<name>; the SSI / pLSCF classes store order as order_in)
+        def eqv(u, v):
+            try:
+                return bool(np.all(np.asarray(u) == np.asarray(v)))
+            except Exception:  # noqa: BLE001
+                return False
+        out["rp_bad"] = [n for n, v in zip(names, vals) if not eqv(getattr(a.run_params, "order_in" if n == "order" else n, None), v)]
     except Exception as e:  # noqa: BLE001
         out["mpe_exc"] = type(e).__name__
     out["inputs_modified"] = any(not np.array_equal(d, d0) for d, d0 in given)
@@ -912,6 +959,50 @@ def cmp_exact_b(rec, name, Tn, exp, got, site):
         rec.fail("%s under %s: differs from the expected grid" % (name, Tn), site + ":" + name)
 
 
+# ------------------------------------------------------------------------------------------------ positional call forms
+MPE_FIELDS = ("Fn", "Xi", "Phi", "order_out", "Fn_cov", "Xi_cov", "mpe")
+CLS_NAME = dict(SSIcov_mm="SSIcov", SSIcov_R="SSIcov", SSIcov_mm_unc="SSIcov", SSIcov_MS_mm="SSIcov_MS", SSIcov_MS_R="SSIcov_MS")
+MPE_OWNER = dict(FDD="FDD", EFDD="EFDD", SSI="SSIdat", pLSCF="pLSCF")   # the class that DEFINES mpe in the pristine hierarchy (one defect, one key)
+
+
+def positional_check(rec, spec, base_inp, fs0):
+    """A share of the cases: the same class is driven once more through the documented POSITIONAL forms, in the parameter order of the
+    pristine signatures (hard-coded in run_alg / make_alg / mpe_request):
+        SingleSetup(data, fs)   MultiSetup_PreGER(fs, ref_ind, datasets)   <Class>(run_params, name)   setup.mpe(name, *mpe arguments)
+    with the mpe values of mpe_request(sens=True), on the record x16 declared at x4 the sampling frequency (both commute exactly with
+    the pipeline), and is related to the KEYWORD-form run on the untransformed record as the property says (tier-A comparison: whole
+    tables x4 / unchanged at 1e-12, equal NaN patterns, unit-max shapes).  A parameter inserted in the middle of a signature or two
+    swapped parameters leave every keyword call alone and bind the positional values elsewhere."""
+    kf, g = 4.0, 16.0
+    kw = run_alg(spec, base_inp, fs0, 1.0, sens=True)
+    inp = dict(base_inp)
+    if spec["setup"] == "single":
+        inp["data"] = base_inp["data"] * g
+    else:
+        inp["datasets"] = [d * g for d in base_inp["datasets"]]
+    ps = run_alg(spec, inp, fs0 * kf, kf, sens=True, positional=True)
+    r = Rec(rec.spec)
+    compare(r, spec, kw, ps, dict(t="fs", k=kf, cmp="A"), kf, lambda v: v)
+    if not r.fails and "mpe_exc" not in kw and "mpe_exc" not in ps and not kw.get("rp_bad") and ps.get("rp_bad"):
+        r.fail("run_params records other values than those passed for %s" % ps["rp_bad"], "fs:mpe")
+    rec.checked += r.checked
+    rec.not_judged += r.not_judged
+    own = [f for f in r.fails if f["key"] == KEY_COR]
+    rest = [f for f in r.fails if f["key"] != KEY_COR]
+    rec.fails += own
+    if rest:
+        cls = CLS_NAME.get(spec["alg"], spec["alg"])
+        names = {f["key"].split(":")[-1].split("-")[0] for f in rest}
+        if names <= set(MPE_FIELDS):
+            entry = MPE_OWNER[family(spec["alg"])] + ".mpe"
+            form = cls + ": setup.mpe('a', %s) given positionally" % ", ".join(mpe_request(spec, family(spec["alg"]), 1.0, Form(), True)[0])
+        else:
+            entry = ("SingleSetup" if spec["setup"] == "single" else "MultiSetup_PreGER") + "+BaseAlgorithm.__init__"
+            form = "%s, %s(run_params, name) built positionally" % ("SingleSetup(data, fs)" if spec["setup"] == "single" else "MultiSetup_PreGER(fs, ref_ind, datasets)", cls)
+        rec.fail("%s: the positional call is not the keyword call with the same values (record x16 at x4 the sampling frequency vs the untransformed "
+                 "keyword run: %s%s)" % (form, rest[0]["what"], "; +%d more" % (len(rest) - 1) if len(rest) > 1 else ""), "", key="C08:%s:positional-call" % entry)
+
+
 # ------------------------------------------------------------------------------------------------ one case (worker)
 def run_case(spec):
     import logging
@@ -976,6 +1067,8 @@ def run_case(spec):
             if got.get("inputs_modified"):
                 rec.fail("%s under %s: the record handed to the setup was modified by the run" % (spec["alg"], T["t"]), T["t"] + ":input-modified")
             compare(rec, spec, base, got, T, kf, smap)
+        if spec.get("pos") and "exc" not in base and not rec.fails:
+            positional_check(rec, spec, base_inp, fs0)
         m_int = hank_method(spec["alg"])
         if spec["tier"] == "I" and rec.fails and m_int in (spec.get("attrib_int") or []):
             # the function-level probe has just shown that build_hank itself treats integer records differently for this method:
@@ -1039,6 +1132,7 @@ def gen_cases(ctx, tier, per_alg):
                         nmodes=nmodes, kind="decay" if v % 4 == 3 else "random")
             spec["amp"] = (1.0, 2e-3, 1.5e3)[v % 3]
             spec["readonly"] = bool(v % 2)   # the records are handed over read-only in half of the cases
+            spec["pos"] = (v % 3 == 2)       # also driven through the positional call forms (positional_check)
             spec["fs"] = float(rng.choice([1.0, 10.0, 64.0, 100.0, 250.0]))
             spec["N"] = int(rng.choice([600, 800, 1024]))
             spec["noise"] = float(rng.choice([0.3, 0.6, 1.0])) if tier == "A" else float(rng.choice([0.01, 0.02, 0.05]))
@@ -1164,6 +1258,7 @@ def expand_mix(cases):
             a["transforms"] = [t for t in s["transforms"] if t["t"] != "mix"]
             b = dict(s)
             b["id"] = s["id"] + "m"
+            b["pos"] = False
             b["P"] = dict(s["P"], hc=dict(HC_NEUTRAL))
             b["transforms"] = [t for t in s["transforms"] if t["t"] == "mix"]
             out += [a, b]
@@ -1374,6 +1469,205 @@ def model_side(ctx):
                 ctx.fail("correspondence", "frequency grid of FDD (%s) differs from the model grid" % case["method_SD"], case, key="C08:grid:%s" % case["method_SD"])
 
 
+# ------------------------------------------------------------------------------------------------ positional call forms: functions
+# Parameter order of the PRISTINE signatures of the anchored functions (read from the unchanged tree and hard-coded: a changed tree must
+# not redefine the expected order).
+POS_SIGS = {
+    "ssi.build_hank": ["Y", "Yref", "br", "method", "calc_unc", "nb"],
+    "ssi.ac2mp": ["A", "C", "dt", "calc_unc"],
+    "ssi.SSI": ["H", "br", "ordmax", "step"],
+    "ssi.SSI_fast": ["H", "br", "ordmax", "step", "calc_unc", "T", "nb"],
+    "ssi.SSI_poles": ["Obs", "AA", "CC", "ordmax", "dt", "step", "calc_unc", "Q1", "Q2", "Q3", "Q4"],
+    "ssi.SSI_multi_setup": ["Y", "fs", "br", "ordmax", "method_hank", "step"],
+    "ssi.SSI_mpe": ["freq_ref", "Fn_pol", "Xi_pol", "Phi_pol", "order", "Lab", "rtol", "Fn_cov", "Xi_cov", "Phi_cov"],
+    "fdd.SD_PreGER": ["Y", "fs", "nxseg", "pov", "method"],
+    "fdd.SD_est": ["Yall", "Yref", "dt", "nxseg", "method", "pov"],
+    "fdd.SD_svalsvec": ["SD"],
+    "fdd.FDD_mpe": ["Sval", "Svec", "freq", "sel_freq", "DF"],
+    "fdd.SDOF_bellandMS": ["Sy", "dt", "sel_fn", "phi_FDD", "method", "cm", "MAClim", "DF"],
+    "fdd.EFDD_mpe": ["Sy", "freq", "dt", "sel_freq", "methodSy", "method", "DF1", "DF2", "cm", "MAClim", "sppk", "npmax"],
+    "plscf.pLSCF": ["Sy", "dt", "ordmax", "sgn_basf"],
+    "plscf.pLSCF_poles": ["Ad", "Bn", "dt", "methodSy", "nxseg"],
+    "plscf.rmfd2ac": ["A_den", "B_num"],
+    "plscf.ac2mp_poly": ["A", "C", "dt", "methodSy", "nxseg"],
+    "plscf.pLSCF_mpe": ["sel_freq", "Fn_pol", "Xi_pol", "Phi_pol", "order", "Lab", "deltaf", "rtol"],
+}
+
+
+def outcome(f):
+    try:
+        return ("ok", f())
+    except Exception as e:  # noqa: BLE001
+        return ("exc", type(e).__name__)
+
+
+def same_value(u, v):
+    """bit-equality of two results (nested tuples / lists / dicts / arrays / scalars / None), NaN equal to NaN."""
+    if isinstance(u, (tuple, list)) and isinstance(v, (tuple, list)):
+        return len(u) == len(v) and all(same_value(a, b) for a, b in zip(u, v))
+    if isinstance(u, dict) and isinstance(v, dict):
+        return u.keys() == v.keys() and all(same_value(u[k], v[k]) for k in u)
+    if u is None or v is None:
+        return u is None and v is None
+    try:
+        a, b = np.asarray(u), np.asarray(v)
+        if a.shape != b.shape:
+            return False
+        if a.dtype.kind in "fc" or b.dtype.kind in "fc":
+            return bool(np.array_equal(a, b, equal_nan=True))
+        return bool(np.array_equal(a, b))
+    except Exception:  # noqa: BLE001
+        return u == v
+
+
+def fn_chain(call, Y, fs, kf, g, rep):
+    """The anchored functions called one after the other on a small record, every parameter given, with values that are not the
+    defaults and differ between neighbouring parameters.  call(name, values by parameter name) -> result or None (raised).
+    Returns what the property constrains (pole tables, extracted modes, every shape) under the names used by fn_relate."""
+    from pyoma2.functions import fdd, plscf, ssi
+
+    mods = dict(ssi=ssi, fdd=fdd, plscf=plscf)
+    C_ = lambda name, **vals: call(name, getattr(mods[name.split(".")[0]], name.split(".")[1]), vals)  # noqa: E731
+    out = {}
+    Y = Y * g
+    fs = fs * kf
+    dt = 1.0 / fs
+
+    def requests(col, off=1.03):
+        u = np.unique(col[~np.isnan(col)])
+        return [float(u[0]) * off] + [float(x) for x in u[1:2]] if len(u) else [0.13 * fs * off, 0.20 * fs]
+    l = Y.shape[0]
+    fr = [0.13 * fs, 0.20 * fs]
+    method = ("cov_mm", "cov_R", "dat")[rep % 3]
+    unc = method == "cov_mm"
+    msd = ("per", "cor")[rep % 2]
+    br, ordmax, nb, nx = 4, 6, 6, 96
+    df = fs / nx
+    Yref = Y[[2, 0], :]
+    Ym = [dict(ref=Y[[0, 1], :], mov=Y[2:, :]), dict(ref=Y[[0, 1], 64:], mov=Y[2:3, 64:] * 0.5)]
+    # ---- time domain
+    r = C_("ssi.build_hank", Y=Y, Yref=Yref, br=br, method=method, calc_unc=unc, nb=nb)
+    if r is not None:
+        H, T = r
+        C_("ssi.SSI", H=H, br=br, ordmax=ordmax, step=2)
+        C_("ssi.SSI_fast", H=H, br=br, ordmax=ordmax, step=2, calc_unc=unc, T=T, nb=nb)
+        r = C_("ssi.SSI_fast", H=H, br=br, ordmax=ordmax, step=1, calc_unc=unc, T=T, nb=nb)
+        if r is not None:
+            Obs, AA, CC, Q1, Q2, Q3, Q4 = r
+            C_("ssi.ac2mp", A=AA[4], C=CC[4], dt=dt, calc_unc=True)
+            r = C_("ssi.SSI_poles", Obs=Obs, AA=AA, CC=CC, ordmax=ordmax, dt=dt, step=1, calc_unc=unc, Q1=Q1, Q2=Q2, Q3=Q3, Q4=Q4)
+            if r is not None:
+                Fn, Xi, Ph, _, Fc, Xc, Pc = r
+                out["ssi"] = (Fn, Xi, Ph)
+                if Fc is None:   # stand-ins, so that the three covariance parameters carry distinct non-default values
+                    Fc, Xc, Pc = Fn * 0 + 1.0, Fn * 0 + 2.0, np.abs(Ph) * 3.0
+                Lab = np.where(np.isnan(Fn), 0, 1)
+                req = requests(Fn[:, 4])   # first request 3 % off its pole: served with the default rtol, not with 0.01
+                r = C_("ssi.SSI_mpe", freq_ref=req, Fn_pol=Fn, Xi_pol=Xi, Phi_pol=Ph, order=4, Lab=Lab, rtol=0.01, Fn_cov=Fc, Xi_cov=Xc, Phi_cov=Pc)
+                if r is not None:
+                    out["ssi_mpe"] = (r[0], r[1], np.asarray(r[2]).T if np.size(r[2]) else None)
+                C_("ssi.SSI_mpe", freq_ref=req, Fn_pol=Fn, Xi_pol=Xi, Phi_pol=Ph, order="find_min", Lab=Lab, rtol=0.3 * kf, Fn_cov=Fc, Xi_cov=Xc, Phi_cov=Pc)
+    C_("ssi.SSI_multi_setup", Y=Ym, fs=fs, br=br, ordmax=ordmax, method_hank=method, step=2)
+    # ---- spectra
+    C_("fdd.SD_est", Yall=Y, Yref=Yref, dt=dt, nxseg=nx, method=msd, pov=0.25)
+    C_("fdd.SD_PreGER", Y=Ym, fs=fs, nxseg=nx, pov=0.25, method="cor" if msd == "per" else "per")
+    r = C_("fdd.SD_est", Yall=Y, Yref=Y, dt=dt, nxseg=nx, method=msd, pov=0.25)
+    if r is None:
+        return out
+    freq, Sy = r
+    r = C_("fdd.SD_svalsvec", SD=Sy)
+    if r is not None:
+        Sval, Svec = r
+        r = C_("fdd.FDD_mpe", Sval=Sval, Svec=Svec, freq=freq, sel_freq=[f + 3.7 * df for f in fr], DF=2.2 * df)
+        if r is not None:
+            out["fdd"] = (r[0], None, np.asarray(r[1]).T)
+            C_("fdd.SDOF_bellandMS", Sy=Sy, dt=dt, sel_fn=fr[1], phi_FDD=r[1][:, 1], method="EFDD", cm=2, MAClim=0.3, DF=9 * df)
+    r = C_("fdd.EFDD_mpe", Sy=Sy, freq=freq, dt=dt, sel_freq=fr, methodSy=msd, method="EFDD", DF1=2 * df, DF2=9 * df, cm=2, MAClim=0.3, sppk=1, npmax=6)
+    if r is not None:
+        out["efdd"] = (r[0].ravel(), r[1].ravel(), np.asarray(r[2]).T)
+    # ---- polyreference
+    C_("plscf.pLSCF", Sy=Sy, dt=dt, ordmax=3, sgn_basf=1 if msd == "per" else -1)
+    r = C_("plscf.pLSCF", Sy=Sy, dt=dt, ordmax=4, sgn_basf=-1 if msd == "per" else 1)
+    if r is None:
+        return out
+    Ad, Bn = r
+    r = C_("plscf.rmfd2ac", A_den=Ad[2], B_num=Bn[2])
+    if r is not None:
+        r = C_("plscf.ac2mp_poly", A=r[0], C=r[1], dt=dt, methodSy=msd, nxseg=nx)
+        if r is not None:
+            out["poly"] = (None, None, r[2])
+    r = C_("plscf.pLSCF_poles", Ad=Ad, Bn=Bn, dt=dt, methodSy=msd, nxseg=nx)
+    if r is not None:
+        Fn, Xi, Ph, _ = r
+        out["plscf" if msd == "per" else "plscf_cor"] = (Fn, Xi, Ph)
+        Lab = np.where(np.isnan(Fn), 0, 7)
+        # (the function's own default rtol is 0.01: first request 0.7 % off, served with the default and not with 0.004; the search for the
+        # lowest stable order gets both requests 2 % off: found with rtol=0.03 inside deltaf=0.3, not with the defaults 0.01 / 0.05)
+        req = requests(Fn[:, 3], 1.007)
+        r = C_("plscf.pLSCF_mpe", sel_freq=req, Fn_pol=Fn, Xi_pol=Xi, Phi_pol=Ph, order=3, Lab=Lab, deltaf=0.3 * kf, rtol=0.004)
+        if r is not None:
+            out["plscf_mpe"] = (r[0], r[1], np.asarray(r[2]).T if np.size(r[2]) else None)
+        C_("plscf.pLSCF_mpe", sel_freq=[req[0] / 1.007 * 1.02] + [x * 1.02 for x in req[1:]], Fn_pol=Fn, Xi_pol=Xi, Phi_pol=Ph, order="find_min", Lab=Lab, deltaf=0.3 * kf, rtol=0.03)
+    return out
+
+
+def positional_functions(ctx):
+    """Every anchored function is called (a) by keyword and (b) fully POSITIONALLY in the pristine parameter order with the same
+    values: bit-equal results; then the positional chain is repeated on the record x16 at x4 the sampling frequency and related to the
+    first one as the property says (frequencies x4, damping and shapes unchanged, every shape unit-max)."""
+    rng = np.random.default_rng(int(ctx.np_rng.integers(1, 2**31)))
+    for rep in range(ctx.n(2, 6)):
+        l = 3 + rep % 2
+        y, _ = synth(rng, 1500, l, [0.13, 0.20], [0.012, 0.02], 0.4, "random")
+        Y = np.ascontiguousarray(y.T)
+        fs = 8.0
+        case = dict(kind="positional-functions", rep=rep, l=l, N=1500, fs=fs, record="synth(default_rng(seed), 1500, l, [0.13, 0.20], [0.012, 0.02], 0.4, 'random')")
+        stats = dict(calls=0, raised=0, differ=0)
+
+        def both(name, fn, vals):
+            names = POS_SIGS[name]
+            assert list(vals) == names, name
+            rk = outcome(lambda: fn(**vals))
+            rp = outcome(lambda: fn(*[vals[n] for n in names]))
+            stats["calls"] += 1
+            stats["raised"] += rk[0] == "exc"
+            if rk[0] != rp[0] or (rk[0] == "exc" and rk[1] != rp[1]) or (rk[0] == "ok" and not same_value(rk[1], rp[1])):
+                stats["differ"] += 1
+
+                def show(o):
+                    return "raises " + o[1] if o[0] == "exc" else "returns"
+                args = ", ".join("%s=%s" % (n, ("<%s>" % type(vals[n]).__name__) if isinstance(vals[n], (np.ndarray, list, dict)) else repr(vals[n])) for n in names)
+                ctx.fail("oracle", "%s(%s): the call with these values given POSITIONALLY in the documented order %s, by keyword %s%s" % (
+                    name, args, show(rp), show(rk), " something else" if rk[0] == rp[0] == "ok" else ""), dict(case, function=name), key="C08:%s:positional-call" % name)
+            return rp[1] if rp[0] == "ok" else (rk[1] if rk[0] == "ok" else None)
+
+        def pos_only(name, fn, vals):
+            rp = outcome(lambda: fn(*[vals[n] for n in POS_SIGS[name]]))
+            return rp[1] if rp[0] == "ok" else None
+
+        o1 = fn_chain(both, Y, fs, 1.0, 1.0, rep)
+        o2 = fn_chain(pos_only, Y, fs, 4.0, 16.0, rep)
+        ctx.count(dict(case, calls=stats["calls"], raised=stats["raised"]), nontrivial=stats["raised"] * 3 < stats["calls"])
+        fn_of = dict(ssi="ssi.SSI_poles", ssi_mpe="ssi.SSI_mpe", plscf_mpe="plscf.pLSCF_mpe", fdd="fdd.FDD_mpe", efdd="fdd.EFDD_mpe", poly="plscf.ac2mp_poly", plscf="plscf.pLSCF_poles", plscf_cor="plscf.pLSCF_poles")
+        for k, name in fn_of.items():
+            if stats["differ"]:
+                break   # already reported at the call that differs: what follows it in the chain is a consequence
+            a, b = o1.get(k), o2.get(k)
+            r_ = Rec(dict(alg=name))
+            for o in (a, b):
+                if o is not None and o[2] is not None:
+                    unit_max_check(r_, "shapes", "positional call", o[2], "fn")
+            if k != "plscf_cor" and (a is None) != (b is None):
+                r_.fail("raises on the record x16 at x4 the sampling frequency only (or on the untransformed record only)", "fn")
+            elif k != "plscf_cor" and a is not None:
+                tol = TOL_EFDD if k == "efdd" else 1e-9
+                for nm, fac, i in (("frequencies", 4.0, 0), ("damping ratios", 1.0, 1), ("shapes", 1.0, 2)):
+                    if a[i] is not None and b[i] is not None:
+                        cmp_exact(r_, nm, "x16 gain, x4 sampling frequency (positional calls)", fac * np.asarray(a[i]), np.asarray(b[i]), "fn", tol)
+            for f in r_.fails:
+                ctx.fail("oracle", "%s called positionally: %s" % (name, f["what"]), dict(case, function=name), key="C08:%s:positional-call" % name)
+
+
 KEY_INT = "C08:build_hank:%s:integer-record-arithmetic"
 
 
@@ -1485,6 +1779,7 @@ def run(ctx):
     attrib = probe_cor(ctx)
     attrib_int = probe_int(ctx)
     model_side(ctx)
+    positional_functions(ctx)
     cases = corpus + expand_mix(gen_cases(ctx, "A", ctx.n(6, 48)) + gen_cases(ctx, "B", ctx.n(6, 48))) + gen_int_cases(ctx, ctx.n(2, 6))
     for sp in cases:
         sp["attrib_cor"] = bool(attrib)
